@@ -158,6 +158,10 @@ def gen_literal(rng, max_digits=12, max_exp=30, allow_neg=True, allow_pct=True, 
     if boundary and max_digits >= 6 and rng.random() < boundary:
         from . import boundary as B
         text = B.literal(rng, allow_neg=allow_neg, allow_frac=not integer)
+        if not integer and rng.random() < 0.25:
+            text = B.terminating_literal(rng)
+            if not allow_neg:
+                text = text.lstrip("-")
         if allow_pct and not integer and rng.random() < 0.08:
             text += "%"
         return ("lit", text, lit_from_text(text))
@@ -248,10 +252,15 @@ def gen_tree(rng, depth, max_digits=12, max_exp=30, ops="+-*/^", zero_bias=0.08)
         right = gen_tree(rng, depth - 1, max_digits, max_exp, ops, zero_bias)
     return ("bin", op, left, right)
 
-def gen_chain(rng, n):
+def gen_chain(rng, n, calls=0.0):
     """A long flat chain a0 op a1 op a2 ... (left to right within a precedence level, as the minimal spelling has it), with the
     occasional parenthesised pair: exercises whatever grows with the NUMBER of operands rather than with nesting depth."""
     def leaf():
+        if calls and rng.random() < calls:
+            # a built-in call as operand: round(7), floor(7 / 2), ceil(2.5) - hundreds of them in one flat expression
+            k = rng.randint(1, 99)
+            arg = rng.choice([int_lit(k), ("bin", "/", int_lit(k), int_lit(rng.randint(2, 9))), ("lit", "%d.5" % k, Fraction(2 * k + 1, 2))])
+            return ("call", rng.choice(["round", "floor", "ceil"]), [arg])
         if rng.random() < 0.1:
             a, b = int_lit(rng.randint(1, 99)), int_lit(rng.randint(1, 99))
             return ("bin", rng.choice("+-*"), a, b)
